@@ -1388,6 +1388,19 @@ def install(reg):
 
     M[np.empty] = m_empty
 
+    def _filled(tag, prev):
+        def h(interp, shape, dtype=None, *a, **k):
+            if not contains_sym(shape) and not isinstance(dtype, DType):
+                return prev(interp, shape, dtype, *a, **k) if prev is not None else interp.native(getattr(np, tag), shape, dtype, *a, **k)
+            if isinstance(shape, (int, Sym)):
+                shape = (shape,)
+            # numpy default dtype is float64
+            return mk_ndarray(dtype if dtype is not None else DType("float64"), tuple(shape), (tag, tuple(id(d) for d in shape)))
+        return h
+
+    for _tag in ("zeros", "ones"):
+        M[getattr(np, _tag)] = _filled(_tag, M.get(getattr(np, _tag)))
+
     prev_asarray = M.get(np.asarray)
 
     def m_asarray(interp, x, dtype=None, **k):
